@@ -615,9 +615,11 @@ def refine_droplet(
     if droplet.interface_width is None:
         droplet.interface_width = phase_field.grid.typical_discretization
 
-    # enlarge the mask to also contain the shape change
+    # enlarge the mask to also contain the shape change; the region grows by twice the
+    # interface width, measured in cells (not in the physical units of the grid)
     mask = droplet._get_phase_field(phase_field.grid, dtype=bool)
-    dilation_iterations = 1 + int(2 * droplet.interface_width)
+    width_in_cells = droplet.interface_width / phase_field.grid.typical_discretization
+    dilation_iterations = 1 + int(2 * width_in_cells)
     mask = ndimage.binary_dilation(mask, iterations=dilation_iterations)
     if not mask.any():
         # the droplet does not cover any support point, so there is nothing to fit
